@@ -1093,7 +1093,11 @@ class PkgGlobal:
 CONSTS = {"numpy.inf": float("inf"), "numpy.nan": float("nan"),
           "numpy.pi": z3.Real("PI"), "numpy.e": z3.Real("EULER"),
           "math.inf": float("inf"), "math.pi": z3.Real("PI"),
-          "numpy.newaxis": None}
+          "numpy.newaxis": None,
+          # signal numbers: distinct named constants
+          "signal.SIGTERM": "SIGTERM", "signal.SIGINT": "SIGINT",
+          "signal.SIGALRM": "SIGALRM", "signal.SIGHUP": "SIGHUP",
+          "signal.SIGUSR1": "SIGUSR1", "signal.SIGUSR2": "SIGUSR2"}
 
 
 def class_attr(I, cname, attr):
@@ -1898,6 +1902,10 @@ for _nm in ("log", "exp", "log1p", "sqrt", "cos", "sin", "tan", "arctan2",
 # re-exported hooks used by the engine ---------------------------------
 def construct(I, cref, args, kwargs):
     key = cref.name
+    if I._opaque_callee(key):
+        # construction of an object the contract does not look into
+        I.stats.lib_used.add(f"opaque-callee:{key}")
+        return Opaque(f"{key}(...)")
     if key in CONSTRUCTORS:
         return CONSTRUCTORS[key](I, *args, **kwargs)
     raise Unsupported(f"construction of {cref.name}")
@@ -2092,9 +2100,63 @@ def _logsumexp(I, a, **kw):
     return I.fresh_const("logsumexp", z3.RealSort())
 
 
+def _clock_mode(I):
+    return bool(I.contract.extra.get("clock")) if I.contract is not None \
+        else False
+
+
+def clock_lower_bound(I):
+    """the latest time known to have passed (a symbolic Real): the model of
+    the wall clock in contracts marked clock=True.  The clock is monotone:
+    every datetime.now() is >= every time observed before it."""
+    if "clock" not in I.ghost:
+        I.ghost["clock"] = z3.Real(I.namer.fresh("clock0"))
+    return I.ghost["clock"]
+
+
 @lib("datetime.datetime.now", "time.time")
 def _now(I, *a, **k):
+    if _clock_mode(I):
+        lo = clock_lower_bound(I)
+        t = z3.Real(I.namer.fresh("now"))
+        I.assume(t >= lo)
+        I.ghost["clock"] = t
+        return t
     return Opaque("time")
+
+
+@lib("numpy.mean")
+def _np_mean_opaque(I, x, **kw):
+    if isinstance(x, Opaque):
+        return Opaque("mean of an uninspected value")
+    raise Unsupported("numpy.mean")
+
+
+@lib("torch.optim.lr_scheduler.CosineAnnealingLR")
+def _cosine_lr(I, *a, **k):
+    return Opaque("lr scheduler")
+
+
+@lib("signal.signal")
+def _signal_signal(I, sig, handler):
+    """the process's handler table (ghost): signal name -> handler"""
+    if not isinstance(sig, str):
+        raise Unsupported("signal.signal with a symbolic signal number")
+    I.ghost.setdefault("signals", {})[sig] = handler
+    return Opaque("previous handler")
+
+
+@lib("spec.handler_of")
+def _spec_handler_of(I, sig, obj, name):
+    """is the handler registered for `sig` the bound method obj.name?"""
+    h = I.ghost.get("signals", {}).get(sig)
+    return isinstance(h, E.BoundMethod) and h.obj is _val(obj) and \
+        h.name == name
+
+
+@lib("spec.clock")
+def _spec_clock(I):
+    return clock_lower_bound(I)
 
 
 # ------------------------------------------------ C10: functions & chunks
@@ -2788,8 +2850,34 @@ def _np_ones(I, shape, dtype=None, **kw):
     return Cell("arr", SymSeq(shape, lambda i: one, "Real"))
 
 
+# str.lower on a symbolic string: an uninterpreted function on string codes,
+# idempotent, that fixes the lower-case constants of the table.  (Nothing
+# says an arbitrary string is its own lower-case form: "LogT" != "logt".)
+STR_LOWER = z3.Function("str_lower", z3.IntSort(), z3.IntSort())
+_s_ = z3.Int("s!lower")
+_BG.append(z3.ForAll([_s_], STR_LOWER(STR_LOWER(_s_)) == STR_LOWER(_s_),
+                     patterns=[STR_LOWER(_s_)]))
+def str_lower_term(I, b):
+    t = b.term if isinstance(b, StrVal) else b
+    if isinstance(t, str):
+        return t.lower()
+    # images of the constants known so far (ground facts of this path)
+    done = I.__dict__.setdefault("_lower_ax", set())
+    for c in list(StrVal.TABLE):
+        if c not in done:
+            done.add(c)
+            I.pc.append(STR_LOWER(z3.IntVal(StrVal.code(c))) ==
+                        z3.IntVal(StrVal.code(c.lower())))
+    return StrVal(STR_LOWER(t))
+
+
 METHODS[("StrVal", "lower")] = lambda I, b: E.LibFunc(
-    "str.lower", lambda I2: b)     # option strings are stored lower-cased
+    "str.lower", lambda I2: str_lower_term(I2, b))
+
+
+@lib("spec.lower")
+def _spec_lower(I, s):
+    return str_lower_term(I, s)
 
 
 @lib("spec.ext")
@@ -3205,6 +3293,10 @@ _old_getattr_fn = getattr
 
 
 def getattr(I, base, attr):          # noqa: F811
+    if attr == "total_seconds" and z3.is_expr(base) and z3.is_arith(base) \
+            and _clock_mode(I):
+        # a duration is modelled as its number of seconds
+        return E.LibFunc("timedelta.total_seconds", lambda I2: base)
     if isinstance(base, Opaque):
         # an uninspected foreign value: attribute access / method calls
         # yield further uninspected values (no effect on modelled state)
@@ -3228,6 +3320,12 @@ def compare(I, op, a, b):            # noqa: F811
 
 @lib("datetime.timedelta")
 def _timedelta(I, *a, **k):
+    if _clock_mode(I):
+        if not a and not k:
+            return z3.RealVal(0)
+        if not a and set(k) == {"seconds"}:
+            return to_real(_val(k["seconds"]))
+        raise Unsupported("timedelta(...) with these arguments")
     return Opaque("timedelta")
 
 
@@ -3900,6 +3998,24 @@ class DTypeVal:
 
 INUNIT = z3.Function("InUnit", PS_, z3.BoolSort())
 LIB["spec.InUnit"] = E.LibFunc("spec.InUnit", lambda I, v: INUNIT(_val(v)))
+
+# np.clip(x, 0.0, 1.0) on unit-hypercube points: the projection onto the
+# closed unit hypercube: the identity exactly on the points already inside
+CLIPU = z3.Function("ClipUnit", PS_, PS_)
+_pc_ = z3.Const("p!clip", PS_)
+_BG.append(z3.ForAll([_pc_], (CLIPU(_pc_) == _pc_) == INUNIT(_pc_),
+                     patterns=[CLIPU(_pc_)]))
+
+
+@lib("numpy.clip")
+def _np_clip(I, x, lo, hi, **kw):
+    v = _val(x)
+    if isinstance(v, SymSeq) and str(v.elem) == "Sort(P)" and \
+            lo == 0.0 and hi == 1.0 and not kw:
+        return Cell("arr", SymSeq(v.length, lambda i: CLIPU(v.get(i)),
+                                  v.elem))
+    raise Unsupported("numpy.clip on these arguments")
+
 
 _np_zeros_2 = LIB["numpy.zeros"].fn
 
